@@ -287,3 +287,131 @@ Example C04_chk_fit_example :
 Proof. exact chk_fit_example. Qed.
 
 Print Assumptions C04_chk_fit_is_about_R_model.
+
+(* ================================================================================================================
+   The Gauss-Jordan stand-in for LAPACK, proved sound (proofs/QSolve_proofs.v), and check 1 of chk_fit read at R
+   (proofs/QR_bridge_C04_solve.v).
+   [LA.qsolve A B] eliminates on the augmented rows (a_i | b_i) over Q: at step c it takes the first remaining row whose entry c
+   is non-zero (None when there is none), divides it by that entry, subtracts from every other row its entry c times the
+   normalised pivot row; Qred after every operation.  Proved: every step preserves, in both directions, the set of X with
+   A X == B; after n steps the left block is the identity.  Hence, for A n x n and B n x m, a returned X has shape n x m,
+   satisfies A X == B entry-wise (Qeq) -- embedded in R: A X = B exactly -- and is the only rational solution of that shape.
+   Consequence for the correspondence run: on a dataset whose input rows have width din, whenever the elimination answers, the
+   model's own solution [backward_raw qsolve_tot ...] that chk_fit compares with the observed Wout / bias is, embedded in R, an
+   exact solution of the R-model's normal equations, i.e. (C04_normal_equations_imply_optimal / _unique, lam > 0) the ridge
+   optimum.  Completeness is proved too: "None" exhibits a non-zero rational vector killed by every row of A, so a system with
+   a trivial kernel always gets an answer; for lam > 0 the ridge system has a trivial kernel (C04_system_nonsingular), so on a
+   well-formed dataset the elimination always answers and the disjunct "no answer" disappears
+   (C04_chk_fit_solution_is_ridge_optimum).                                                                                 *)
+From RV Require Import proofs.QSolve_proofs proofs.QR_bridge_C04_solve.
+Close Scope R_scope.
+
+Theorem C04_qsolve_sound (n m : nat) (A B X : list (list Q)) :
+  length A = n -> Forall (fun r => length r = n) A -> length B = n -> Forall (fun r => length r = m) B ->
+  qsolve A B = Some X ->
+  length X = n /\ Forall (fun r => length r = m) X /\ Forall2 (Forall2 Qeq) (mm A X m) B.
+Proof. intros a b c d. exact (qsolve_sound n m A B X (conj a (conj b (conj c d)))). Qed.
+
+Theorem C04_qsolve_unique (n m : nat) (A B X Y : list (list Q)) :
+  length A = n -> Forall (fun r => length r = n) A -> length B = n -> Forall (fun r => length r = m) B ->
+  qsolve A B = Some X ->
+  length Y = n -> Forall (fun r => length r = m) Y -> Forall2 (Forall2 Qeq) (mm A Y m) B -> Forall2 (Forall2 Qeq) Y X.
+Proof. intros a b c d. exact (qsolve_unique n m A B X Y (conj a (conj b (conj c d)))). Qed.
+
+(* read in R: the embedded answer solves the embedded system exactly *)
+Theorem C04_qsolve_sound_R (n m : nat) (A B X : list (list Q)) :
+  length A = n -> Forall (fun r => length r = n) A -> length B = n -> Forall (fun r => length r = m) B ->
+  qsolve A B = Some X ->
+  shape n m (qm2r X) /\ mm (qm2r A) (qm2r X) m = qm2r B.
+Proof. intros a b c d. exact (qsolve_sound_R n m A B X (conj a (conj b (conj c d)))). Qed.
+
+(* the solver step of backward on the accumulators of any dataset of width din *)
+Theorem C04_backward_raw_solves_R_system (bias : bool) (lam : Q) (w din dout : nat) (Xs Ys : list (list (list Q)))
+      (acc : list (list Q) * list (list Q)) (Wq : list (list Q)) :
+  Forall (Forall (fun r => length r = din)) Xs ->
+  partial_fit bias din dout w (buffers0 bias din dout) Xs Ys = Some acc ->
+  qsolve (ridge_system bias lam din (fst acc)) (transpose (snd acc) (aug_dim bias din)) = Some Wq ->
+  backward_raw qsolve_tot bias lam din acc = Wq /\
+  shape (aug_dim bias din) dout (qm2r Wq) /\ normal_eqs bias (Q2R lam) din dout (acc2r acc) (qm2r Wq).
+Proof. exact (backward_raw_solves_R_system bias lam w din dout Xs Ys acc Wq). Qed.
+
+(* check 1 of chk_fit: the matrix compared with the observed Wout / bias is an exact solution of the R-model's normal equations *)
+Theorem C04_chk_fit_solution_is_about_R_model (bias : bool) (lam : Q) (w din dout : nat) (Xs Ys : list (list (list Q)))
+      (Wout_obs : list (list Q)) (b_obs : list Q) (Xtest pred_obs : list (list Q)) :
+  Forall (Forall (fun r => length r = din)) Xs ->
+  chk_fit bias lam w din dout Xs Ys Wout_obs b_obs Xtest pred_obs = true ->
+  exists (acc : list (list Q) * list (list Q)) (Wo : list (list Q)),
+    partial_fit bias din dout w (buffers0 bias din dout) (map qm2r Xs) (map qm2r Ys) = Some (acc2r acc) /\
+    backward_raw qsolve_tot bias lam din acc = Wo /\
+    mrclose (qm2r (fst (split_wo bias dout Wo))) (qm2r Wout_obs) /\ vrclose (qv2r (snd (split_wo bias dout Wo))) (qv2r b_obs) /\
+    (qsolve (ridge_system bias lam din (fst acc)) (transpose (snd acc) (aug_dim bias din)) = None \/
+     shape (aug_dim bias din) dout (qm2r Wo) /\ normal_eqs bias (Q2R lam) din dout (acc2r acc) (qm2r Wo)).
+Proof. exact (chk_fit_solution_is_about_R_model bias lam w din dout Xs Ys Wout_obs b_obs Xtest pred_obs). Qed.
+
+(* completeness of the elimination: no answer only for a singular matrix *)
+Theorem C04_qsolve_none_singular (n m : nat) (A B : list (list Q)) :
+  length A = n -> Forall (fun r => length r = n) A -> length B = n -> Forall (fun r => length r = m) B ->
+  qsolve A B = None ->
+  exists y : list Q, length y = n /\ (exists i, ~ Qeq (nth i y 0%Q) 0%Q) /\ forall a, In a A -> Qeq (dot a y) 0%Q.
+Proof. intros a b c d. exact (qsolve_none_singular n m A B (conj a (conj b (conj c d)))). Qed.
+
+Theorem C04_qsolve_complete (n m : nat) (A B : list (list Q)) :
+  length A = n -> Forall (fun r => length r = n) A -> length B = n -> Forall (fun r => length r = m) B ->
+  (forall y : list Q, length y = n -> (forall a, In a A -> Qeq (dot a y) 0%Q) -> forall i, Qeq (nth i y 0%Q) 0%Q) ->
+  exists X, qsolve A B = Some X.
+Proof. intros a b c d. exact (qsolve_complete n m A B (conj a (conj b (conj c d)))). Qed.
+
+(* read in R: no answer = the embedded system has a non-zero kernel vector *)
+Theorem C04_qsolve_none_singular_R (n m : nat) (A B : list (list Q)) :
+  length A = n -> Forall (fun r => length r = n) A -> length B = n -> Forall (fun r => length r = m) B ->
+  qsolve A B = None ->
+  exists y : list Q, length y = n /\ qv2r y <> vzeros n /\ mv (qm2r A) (qv2r y) = vzeros n.
+Proof. intros a b c d. exact (qsolve_none_singular_R n m A B (conj a (conj b (conj c d)))). Qed.
+
+(* lam > 0, well-formed rational dataset (the Q counterpart of wf_data): the elimination answers on the ridge system *)
+Theorem C04_ridge_qsolve_answers (bias : bool) (lam : Q) (w din dout : nat) (Xs Ys : list (list (list Q)))
+      (acc : list (list Q) * list (list Q)) :
+  Forall2 (fun X Y => length X = length Y /\ Forall (fun r => length r = din) X) Xs Ys -> (0 < lam)%Q ->
+  partial_fit bias din dout w (buffers0 bias din dout) Xs Ys = Some acc ->
+  exists Wq, qsolve (ridge_system bias lam din (fst acc)) (transpose (snd acc) (aug_dim bias din)) = Some Wq.
+Proof. exact (ridge_qsolve_answers bias lam w din dout Xs Ys acc). Qed.
+
+(* check 1 of chk_fit, lam > 0, well-formed dataset: the matrix compared with the observed Wout / bias solves the R-model's
+   normal equations exactly and minimises every coordinate's regularised objective -- no trust in the elimination left *)
+Theorem C04_chk_fit_solution_is_ridge_optimum (bias : bool) (lam : Q) (w din dout : nat) (Xs Ys : list (list (list Q)))
+      (Wout_obs : list (list Q)) (b_obs : list Q) (Xtest pred_obs : list (list Q)) :
+  Forall2 (fun X Y => length X = length Y /\ Forall (fun r => length r = din) X) Xs Ys -> (0 < lam)%Q ->
+  chk_fit bias lam w din dout Xs Ys Wout_obs b_obs Xtest pred_obs = true ->
+  exists (acc : list (list Q) * list (list Q)) (Wo : list (list Q)),
+    partial_fit bias din dout w (buffers0 bias din dout) (map qm2r Xs) (map qm2r Ys) = Some (acc2r acc) /\
+    backward_raw qsolve_tot bias lam din acc = Wo /\
+    mrclose (qm2r (fst (split_wo bias dout Wo))) (qm2r Wout_obs) /\ vrclose (qv2r (snd (split_wo bias dout Wo))) (qv2r b_obs) /\
+    shape (aug_dim bias din) dout (qm2r Wo) /\ normal_eqs bias (Q2R lam) din dout (acc2r acc) (qm2r Wo) /\
+    forall (k : nat) (w' : list R), (k < dout)%nat -> length w' = aug_dim bias din ->
+      (Jcol (Q2R lam) (RX bias w (map qm2r Xs)) (RY w (map qm2r Ys)) k (colv (qm2r Wo) k)
+       <= Jcol (Q2R lam) (RX bias w (map qm2r Xs)) (RY w (map qm2r Ys)) k w')%R.
+Proof. exact (chk_fit_solution_is_ridge_optimum bias lam w din dout Xs Ys Wout_obs b_obs Xtest pred_obs). Qed.
+
+(* non-vacuity: all premises hold together on the scenario of C04_chk_fit_example, and the elimination answers *)
+Example C04_chk_fit_solution_example :
+  Forall (Forall (fun r => length r = 2)) exXs /\
+  Forall2 (fun X Y => length X = length Y /\ Forall (fun r => length r = 2) X) exXs exYs /\ (0 < 1#2)%Q /\
+  chk_fit true (1#2)%Q 1 2 1 exXs exYs [[(35723#109067)%Q]; [(30012#109067)%Q]] [(8397#218134)%Q] [[1%Q; 1%Q]] [[(19981#31162)%Q]] = true /\
+  qsolve (ridge_system true (1#2)%Q 2 [[(3#1)%Q; (-1#4)%Q; (13#8)%Q]; [(-1#4)%Q; (53#16)%Q; (-3#16)%Q]; [(13#8)%Q; (-3#16)%Q; (273#64)%Q]])
+         (transpose [[(1#2)%Q; (19#16)%Q; (21#16)%Q]] 3)
+    = Some [[(8397#218134)%Q]; [(35723#109067)%Q]; [(30012#109067)%Q]].
+Proof. exact chk_fit_solution_example. Qed.
+(* a singular system is refused: the elimination is not vacuous on the "None" side *)
+Example C04_qsolve_singular_example : qsolve [[1%Q; 2%Q]; [2%Q; 4%Q]] [[1%Q]; [1%Q]] = None.
+Proof. vm_compute. reflexivity. Qed.
+
+Print Assumptions C04_qsolve_sound.
+Print Assumptions C04_qsolve_unique.
+Print Assumptions C04_qsolve_sound_R.
+Print Assumptions C04_backward_raw_solves_R_system.
+Print Assumptions C04_chk_fit_solution_is_about_R_model.
+Print Assumptions C04_qsolve_none_singular.
+Print Assumptions C04_qsolve_complete.
+Print Assumptions C04_qsolve_none_singular_R.
+Print Assumptions C04_ridge_qsolve_answers.
+Print Assumptions C04_chk_fit_solution_is_ridge_optimum.
